@@ -264,6 +264,8 @@ func chainSyncPipelineSetup(s *rt.Sim, tier string) func() {
 			return
 		}
 		cw, sw := watchConn(cConn), watchConn(sConn)
+		kaStop := false
+		connKeepAlive(&kaStop, cConn, sConn)
 		finish := func() {
 			cConn.Close()
 			sConn.Close()
